@@ -126,12 +126,17 @@ def _tensor(shape, init=None, *, dtype=DataType.REAL, learnable=True):
 
 MONO_WEIGHT_KINDS = ["softmax", "exp", "softplus", "sigmoid", "square", "scaled_sigmoid", "clamp", "const_pos", "dirichlet"]
 MONO_WEIGHT_KINDS = MONO_WEIGHT_KINDS + ["softmax0"]
-ANY_WEIGHT_KINDS = MONO_WEIGHT_KINDS + ["raw", "raw", "hadamard2", "sum2", "const", "log_softmax", "log_softmax0"]
+ANY_WEIGHT_KINDS = MONO_WEIGHT_KINDS + ["raw", "raw", "hadamard2", "sum2", "const", "log_softmax", "log_softmax0", "frozen", "frozen"]
+MONO_WEIGHT_KINDS = MONO_WEIGHT_KINDS + ["frozen_pos"]
 
 
 def weight_param(rng: random.Random, kind: str, shape, *, dtype=DataType.REAL) -> P.Parameter:
     if kind == "raw":
         return P.Parameter.from_input(_tensor(shape, dtype=dtype))
+    if kind == "frozen":  # frozen random features: not learnable, but not a constant either
+        return P.Parameter.from_input(_tensor(shape, NormalInitializer(0.0, 1.0), learnable=False))
+    if kind == "frozen_pos":
+        return P.Parameter.from_input(_tensor(shape, UniformInitializer(0.1, 1.5), learnable=False))
     if kind == "softmax":
         return P.Parameter.from_unary(P.SoftmaxParameter(shape, axis=rng.choice([1, -1])), _tensor(shape))
     if kind == "softmax0":  # normalised over the first axis (not the last one)
@@ -432,6 +437,26 @@ def gen_circuit(rng: random.Random, cfg: GenCfg):
             s = b._add(L.HadamardLayer(k, arity=2), [s, rest])
         outs = [s]
         b.notes.append("defect:nonsmooth")
+    if cfg.defect == "nonsmooth-const" and len(ids) >= 1:
+        # a sum mixing a constant (empty-scope) layer with a layer over some variables
+        k = cfg.out_units
+        a = b.get(gen_region(rng, ids[:1]), k)
+        s = b._add(L.SumLayer(k, k, arity=2, weight=b._weight((k, 2 * k), 2, k)), [a, b.const_layer(k)] if rng.random() < 0.5 else [b.const_layer(k), a])
+        if len(ids) > 1:
+            rest = b.get(gen_region(rng, ids[1:]), k)
+            s = b._add(L.HadamardLayer(k, arity=2), [s, rest])
+        outs = [s]
+        b.notes.append("defect:nonsmooth-const")
+    if cfg.defect == "nondecomp3" and len(ids) >= 3:
+        # a product of three layers whose first and last inputs overlap (adjacent ones are disjoint)
+        k = cfg.out_units
+        a = b.get(gen_region(rng, ids[:2]), k)
+        m = b.get(gen_region(rng, ids[2:3]), k)
+        c = b.get(gen_region(rng, ids[1:2] + ids[3:]), k)
+        order = [a, m, c] if rng.random() < 0.7 else [c, m, a]
+        s = b._add(L.HadamardLayer(k, arity=3), order)
+        outs = [s]
+        b.notes.append("defect:nondecomp3")
     if cfg.defect == "nondecomp" and len(ids) >= 2:
         k = cfg.out_units
         a = b.get(gen_region(rng, ids[:2]), k)
